@@ -758,7 +758,29 @@ class Engine:
             out += [ast.parse(ast.unparse(b)).body[0] for b in s.body]
         return out
 
+    def on_append(self, name, ty, env):
+        return
+
     def simple(self, s, env, W):
+        # accumulate-loop form of a comprehension: `xs = []` ... `xs.append(x)`
+        if isinstance(s, ast.Expr) and isinstance(s.value, ast.Call) \
+                and isinstance(s.value.func, ast.Attribute) and s.value.func.attr == "append" \
+                and isinstance(s.value.func.value, ast.Name) \
+                and env.get(s.value.func.value.id, "").startswith("list:"):
+            name = s.value.func.value.id
+            ty = env[name]
+            if len(s.value.args) != 1 or s.value.keywords:
+                fail("append arity", s)
+            v = self.force(self.expr(s.value.args[0], env, W), env, W)
+            if v.t == "" or (ty != "list:?" and ty != "list:" + v.ty):
+                fail("append of a %s to a %s" % (v.ty, ty), s)
+            self.let(W, env, gname(name), "%s ++ [%s]" % (gname(name), v.t), "list:" + v.ty, key=name)
+            self.on_append(name, "list:" + v.ty, env)
+            return
+        if isinstance(s, ast.Assign) and len(s.targets) == 1 and isinstance(s.targets[0], ast.Name) \
+                and isinstance(s.value, ast.List) and not s.value.elts:
+            self.let(W, env, gname(s.targets[0].id), "[]", "list:?", key=s.targets[0].id)
+            return
         if isinstance(s, ast.Expr) and isinstance(s.value, ast.Call):
             v = self.call(s.value, env, W)
             if v is not None and v.opt:
